@@ -47,13 +47,16 @@ SYM_HI = list(range(65532, 65536))   # ... and the last 4 bytes of the first pag
 MAX_EXT = 3
 
 BOUNDS = {
-    "quick": {"modules": "corpus/wasmprogs.py names('quick', seed): 66 numeric instruction modules, 37 comparison-consumer modules, "
-                         "60 generated + 13 fixed control-flow templates (depth <= 3), 7 locals/globals, 9 call, 1 call_indirect, "
-                         "10 misc, ~75 memory modules; routes: py for all, ir for all but call_indirect",
+    "quick": {"modules": "corpus/wasmprogs.py names('quick', seed): 259 modules = 66 numeric instruction modules (every integer instruction x "
+                         "i32/i64), 37 comparison-consumer modules, 48 generated + 13 fixed control-flow templates (nesting depth <= 3), "
+                         "7 locals/globals, 9 call, 1 call_indirect, 10 misc, 68 memory modules (35 loads, 21 stores, 12 store/load pairs); "
+                         "routes: py for all, ir for all but call_indirect; 3 modules translated a second time from the same Module object",
               "symbolic": "all arguments (full i32 / i64 range), every mutable global, 8 bytes of linear memory (first 4 and last 4 of "
                           "page 0) on top of the data segment, the probe address for memory equality (0..65535), 3 host-call results",
-              "unwinding": "400 wasm steps / 1500 IR instructions per execution, call depth 3; longer paths are cut and counted"},
-    "thorough": {"modules": "same families with 600 generated control-flow templates, all comparison contexts, 7 offsets per memory access",
+              "unwinding": "400 wasm steps / 1500 IR instructions per execution, call depth 3; at most 400 paths per module; "
+                           "longer / further paths are cut and counted"},
+    "thorough": {"modules": "1036 modules: same families with 600 generated control-flow templates, all 110 comparison contexts, "
+                            "7 offsets per memory access (84 loads, 52 stores), all 84 store/load pairs",
                  "unwinding": "same"}}
 OUTSIDE = ["floating-point instructions and f32/f64 values (no symbolic float domain)",
            "the native-code execution target (needs real x86-64 execution); wasmtime as reference (not installed: the specification is)",
@@ -236,8 +239,15 @@ class WasmHarness(Harness):
                 membytes[a] = mk.int(f"m{a}", 0, 255)
             probe = mk.int("probe", 0, 65535)
         ext = [mk.int(f"ext{k}", -(1 << 31), (1 << 31) - 1) for k in range(MAX_EXT)] if info["imports"] else []
+        # effective addresses (unsigned base + offset, no wrap) of the memory-access templates, for known-finding regions
+        ea = []
+        parts = self.prog.split(":")
+        if parts[0] in ("ld", "st"):
+            ea = [args[0] % (1 << 32) + int(parts[2])]
+        elif parts[0] == "mem":
+            ea = [args[0] % (1 << 32) + int(parts[3]), args[2] % (1 << 32) + int(parts[4])]
         return dict(src=src, ps=ps, rs=rs, args=args, glob=glob, membytes=membytes, probe=probe, ext=ext,
-                    gtypes=[t for t, _ in info["globals"]])
+                    gtypes=[t for t, _ in info["globals"]], ea=ea)
 
     # -- the reference ------------------------------------------------------------------------------------
     def run_ref(self, i, info, max_steps):
@@ -345,7 +355,9 @@ class WasmHarness(Harness):
                 r = sem.call(f, argv)
                 out["res"] = [] if r is None else [sval(r)]
             except irsem.StepLimit as e:
-                raise core.PathCut(str(e))
+                # the reference ended within 400 wasm steps; 1500 IR instructions are far beyond what the translation
+                # needs: reported as non-termination (a trap-like outcome), not cut
+                out["trap"] = "does not terminate within the IR step bound"
             except irsem.Unsupported:
                 raise
             except Exception as e:
@@ -356,8 +368,7 @@ class WasmHarness(Harness):
         for k, (t, mut) in enumerate(info["globals"]):
             n = tbits(t) // 8
             a = sem.gaddr[winfo.global_names[k][1]]
-            bs = [z3.Select(sem.mem, z3.BitVecVal(a + j, 32)) for j in range(n)]
-            out["globals"].append(sval(z3.Concat(*reversed(bs))))
+            out["globals"].append(sval(sem.load(z3.BitVecVal(a, 32), n)))     # (forwarded whole term, see _IrSem)
         out["mem"] = None
         if info["memory"]:
             out["mem"] = sval(z3.Select(sem.mem, z3.BitVecVal(MEM_BASE, 32) + irsem.bvv(i["probe"], 32)))
